@@ -94,40 +94,40 @@ Fixpoint deepcopy (fuel : nat) (h : heap) (v : val) : res (heap * val) :=
 Definition get_list (h : heap) (v : val) : option (list val) :=
   match v with VRef a => match hget h a with Some (OList l) => Some l | _ => None end | _ => None end.
 
-(** ** default instances (__CreateInstance) *)
-Fixpoint alloc_n (n : nat) (mk : heap -> res (heap * val)) (h : heap) : res (heap * list val) :=
+(** ** default instances (__CreateInstance): a total function *)
+Fixpoint alloc_n (n : nat) (mk : heap -> heap * val) (h : heap) : heap * list val :=
   match n with
-  | O => Ok (h, [])
-  | S n' => do p <- mk h; let '(h1, v) := p in do q <- alloc_n n' mk h1; let '(h2, vs) := q in Ok (h2, v :: vs)
+  | O => (h, [])
+  | S n' => let '(h1, v) := mk h in let '(h2, vs) := alloc_n n' mk h1 in (h2, v :: vs)
   end.
 
 Definition zero_elem (e : irty) : val := match e with ITFloat => VFloat zero | _ => VInt 0 end.
 
-Fixpoint create_instance (t : irty) (h : heap) : res (heap * val) :=
+Fixpoint create_instance (t : irty) (h : heap) : heap * val :=
   match t with
-  | ITInt _ => Ok (h, VInt 0)
-  | ITFloat => Ok (h, VFloat zero)
-  | ITVec e n => let '(h1, a) := alloc h (OList (repeat (zero_elem e) n)) in Ok (h1, VRef a)
+  | ITInt _ => (h, VInt 0)
+  | ITFloat => (h, VFloat zero)
+  | ITVec e n => let '(h1, a) := alloc h (OList (repeat (zero_elem e) n)) in (h1, VRef a)
   | ITMat e rows cols =>
       (* [[zero] * cols] * rows : every row is the same list object *)
       let '(h1, a) := alloc h (OList (repeat (zero_elem e) cols)) in
-      let '(h2, b) := alloc h1 (OList (repeat (VRef a) rows)) in Ok (h2, VRef b)
+      let '(h2, b) := alloc h1 (OList (repeat (VRef a) rows)) in (h2, VRef b)
   | ITStruct _ fields =>
-      do r <- (fix go (fs : list (string * irty)) (h : heap) : res (heap * list (string * val)) :=
-                 match fs with
-                 | [] => Ok (h, [])
-                 | (n, ft) :: rest => do p <- create_instance ft h; let '(h1, v) := p in
-                                      do q <- go rest h1; let '(h2, vs) := q in Ok (h2, (n, v) :: vs)
-                 end) fields h;
-      let '(h1, d) := r in let '(h2, a) := alloc h1 (ODict d) in Ok (h2, VRef a)
+      let '(h1, d) := (fix go (fs : list (string * irty)) (h : heap) : heap * list (string * val) :=
+                         match fs with
+                         | [] => (h, [])
+                         | (n, ft) :: rest => let '(h1, v) := create_instance ft h in
+                                              let '(h2, vs) := go rest h1 in (h2, (n, v) :: vs)
+                         end) fields h in
+      let '(h2, a) := alloc h1 (ODict d) in (h2, VRef a)
   | ITArr elem dims =>
-      (fix dim (ds : list nat) (h : heap) : res (heap * val) :=
+      (fix dim (ds : list nat) (h : heap) : heap * val :=
          match ds with
          | [] => create_instance elem h
-         | d :: rest => do p <- alloc_n d (dim rest) h; let '(h1, vs) := p in
-                        let '(h2, a) := alloc h1 (OList vs) in Ok (h2, VRef a)
+         | d :: rest => let '(h1, vs) := alloc_n d (dim rest) h in
+                        let '(h2, a) := alloc h1 (OList vs) in (h2, VRef a)
          end) dims h
-  | ITVoid => Ok (h, VNone)
+  | ITVoid => (h, VNone)
   end.
 
 (** ** operations of the binary family *)
@@ -185,6 +185,16 @@ Definition rows_of (h : heap) (v : val) : res (list (list val)) :=
   | None => Unmodelled
   end.
 
+Fixpoint matmul_rows (m1 : list (list val)) (ncols : nat) (l : list (list val)) (h : heap) : res (heap * list val) :=
+  match l with
+  | [] => Ok (h, [])
+  | row :: rest =>
+      do vs <- map_res (fun jv => match jv with VInt j => dot h row m1 (Z.to_nat j) | _ => Unmodelled end)
+                       (map (fun j => VInt (Z.of_nat j)) (seq 0 ncols));
+      let '(h1, ad) := alloc h (OList vs) in
+      do q <- matmul_rows m1 ncols rest h1; let '(h2, out) := q in Ok (h2, VRef ad :: out)
+  end.
+
 Definition binary_op (o : binopc) (t : irty) (h : heap) (a b : val) : res (heap * val) :=
   match o with
   | BOther _ => Err EICE
@@ -201,15 +211,7 @@ Definition binary_op (o : binopc) (t : irty) (h : heap) (a b : val) : res (heap 
           (* result has Shape[0] = ColumnCount rows of Shape[1] = RowCount entries; for the (square) spellable
              types this is rows x cols; other shapes are outside the model *)
           if negb (Nat.eqb trows tcols) then Unmodelled else
-          do rows <- (fix go (l : list (list val)) (h : heap) : res (heap * list val) :=
-                        match l with
-                        | [] => Ok (h, [])
-                        | row :: rest =>
-                            do vs <- map_res (fun jv => match jv with VInt j => dot h row m1 (Z.to_nat j) | _ => Unmodelled end)
-                                             (map (fun j => VInt (Z.of_nat j)) (seq 0 (length r0)));
-                            let '(h1, ad) := alloc h (OList vs) in
-                            do q <- go rest h1; let '(h2, out) := q in Ok (h2, VRef ad :: out)
-                        end) m0 h;
+          do rows <- matmul_rows m1 (length r0) m0 h;
           let '(h1, out) := rows in
           if negb (Nat.eqb (length out) trows) || negb (Nat.eqb (length r0) tcols) then Unmodelled else
           let '(h2, ad) := alloc h1 (OList out) in Ok (h2, VRef ad)
@@ -292,7 +294,7 @@ Inductive step_res :=
   | StFail (e : errkind)
   | StUnmodelled.
 
-Definition rget (fr : frame) (r : nat) : res val := match rlookup r (regs fr) with Some v => Ok v | None => Err EKey end.
+Definition rget (fr : frame) (r : nat) : res val := match rlookup r (regs fr) with Some v => Ok v | None => Err (EKey KReg) end.
 Definition rset (fr : frame) (r : nat) (v : val) : frame := {| regs := rupdate r v (regs fr); vars := vars fr; fargs := fargs fr |}.
 Definition with_heap (st : vmstate) (h : heap) : vmstate := {| globals := globals st; hp := h |}.
 
@@ -305,10 +307,10 @@ Definition step (F : ifunc) (pc : nat) (fr : frame) (st : vmstate) (i : instr) :
   match i_body i with
   | ILoad sc v =>
       match sc, v with
-      | SGlobal, VName x => match slookup x (globals st) with Some w => next (rset fr ref w) st | None => StFail EKey end
+      | SGlobal, VName x => match slookup x (globals st) with Some w => next (rset fr ref w) st | None => StFail (EKey KGlobal) end
       | SArg, VIndex n => match nth_error (fargs fr) n with Some w => next (rset fr ref w) st | None => StFail EIndex end
       | SArg, VName _ => StFail EType                        (* a list indexed with a str *)
-      | SLocal, VName x => match slookup x (vars fr) with Some w => next (rset fr ref w) st | None => StFail EKey end
+      | SLocal, VName x => match slookup x (vars fr) with Some w => next (rset fr ref w) st | None => StFail (EKey KVar) end
       | _, _ => StUnmodelled
       end
   | IStore sc v src =>
@@ -327,7 +329,7 @@ Definition step (F : ifunc) (pc : nat) (fr : frame) (st : vmstate) (i : instr) :
       lift (rget fr arr) (fun a => lift (rget fr idx) (fun ix => lift (py_getitem (hp st) a ix) (fun w => next (rset fr ref w) st)))
   | IStoreArray arr idx src =>
       lift (rget fr src) (fun w => lift (rget fr arr) (fun a => lift (rget fr idx) (fun ix =>
-      lift (py_setitem (hp st) a ix w) (fun h' => next fr (with_heap st h')))))
+      lift (py_setitem (hp st) a ix w) (fun h' => next (rset fr ref w) (with_heap st h')))))
   | ISetIdx _ arr idx src =>
       lift (rget fr src) (fun w => lift (rget fr arr) (fun a =>
       lift (deepcopy 8 (hp st) a) (fun p => let '(h1, c) := p in
@@ -336,7 +338,7 @@ Definition step (F : ifunc) (pc : nat) (fr : frame) (st : vmstate) (i : instr) :
       lift (rget fr o) (fun ov =>
       match ov with
       | VRef a => match hget (hp st) a with
-                  | Some (ODict d) => match slookup m d with Some w => next (rset fr ref w) st | None => StFail EKey end
+                  | Some (ODict d) => match slookup m d with Some w => next (rset fr ref w) st | None => StFail (EKey KMember) end
                   | Some (OList _) => StFail EType
                   | None => StUnmodelled end
       | _ => StFail EType
@@ -345,7 +347,7 @@ Definition step (F : ifunc) (pc : nat) (fr : frame) (st : vmstate) (i : instr) :
       lift (rget fr o) (fun ov => lift (rget fr src) (fun w =>
       match ov with
       | VRef a => match hget (hp st) a with
-                  | Some (ODict d) => next fr (with_heap st (hset (hp st) a (ODict (supdate m w d))))
+                  | Some (ODict d) => next (rset fr ref w) (with_heap st (hset (hp st) a (ODict (supdate m w d))))
                   | Some (OList _) => StFail EType
                   | None => StUnmodelled end
       | _ => StFail EType
@@ -371,12 +373,12 @@ Definition step (F : ifunc) (pc : nat) (fr : frame) (st : vmstate) (i : instr) :
           | Some tb, Some fb =>
               lift (truthy (hp st) pv) (fun c =>
               match block_offset_last (fn_blocks F) (if c then tb else fb) with
-              | Some off => StNext off fr st | None => StFail EKey end)
+              | Some off => StNext off fr st | None => StFail (EKey KBlock) end)
           | _, _ => StFail EAttr
           end)
       | None =>
           match t with
-          | Some tb => match block_offset_last (fn_blocks F) tb with Some off => StNext off fr st | None => StFail EKey end
+          | Some tb => match block_offset_last (fn_blocks F) tb with Some off => StNext off fr st | None => StFail (EKey KBlock) end
           | None => StFail EAttr
           end
       end
@@ -389,9 +391,9 @@ Definition step (F : ifunc) (pc : nat) (fr : frame) (st : vmstate) (i : instr) :
       lift (map_res (fun rv => match rv with VInt r => rget fr (Z.to_nat r) | _ => Unmodelled end) (map (fun r => VInt (Z.of_nat r)) args))
            (fun vs => StCall fn vs ref)
   | INewVar name =>
-      lift (create_instance (i_ty i) (hp st)) (fun p => let '(h1, w) := p in
+      let '(h1, w) := create_instance (i_ty i) (hp st) in
       let fr1 := {| regs := regs fr; vars := supdate name w (vars fr); fargs := fargs fr |} in
-      next (rset fr1 ref w) (with_heap st h1))
+      next (rset fr1 ref w) (with_heap st h1)
   | ICast src =>
       lift (rget fr src) (fun w =>
       if negb (ty_is_primitive (i_ty i)) then StFail EAssert else
@@ -428,7 +430,7 @@ Fixpoint run (fuel : nat) (P : program) (F : ifunc) (pc : nat) (fr : frame) (st 
           | StUnmodelled => UnmodelledO
           | StCall fn vs dst =>
               match find_func P fn with
-              | None => Fail EKey
+              | None => Fail (EKey KFunc)
               | Some G =>
                   match run fu P G 0 {| regs := init_regs G; vars := []; fargs := vs |} st with
                   | Done v st' => run fu P F (S pc) (rset fr dst v) st'
@@ -442,7 +444,7 @@ Fixpoint run (fuel : nat) (P : program) (F : ifunc) (pc : nat) (fr : frame) (st 
 (** VirtualMachine.Invoke: arguments by name, missing ones are None *)
 Definition invoke (fuel : nat) (P : program) (fn : string) (named : list (string * val)) (st : vmstate) : outcome :=
   match find_func P fn with
-  | None => Fail EKey
+  | None => Fail (EKey KFunc)
   | Some F =>
       let args := map (fun a => match slookup (fst a) named with Some v => v | None => VNone end) (fn_args F) in
       run fuel P F 0 {| regs := init_regs F; vars := []; fargs := args |} st
